@@ -61,7 +61,7 @@ func ints(l []int) string {
 	return strings.Join(t, ",")
 }
 
-func (s *lsession) exec(op string) string {
+func (s *lsession) exec(op string) (rep string) {
 	s.script = append(s.script, op)
 	t := strings.Fields(op)
 	switch t[0] {
@@ -84,17 +84,44 @@ func (s *lsession) exec(op string) string {
 		}
 		s.closed = true
 		return "ok"
-	case "pass":
+	case "pass", "transferlate":
 		if s.done {
 			return "bad-op"
 		}
-		if uint64(len(s.in)) < s.q && !s.closed {
+		late := t[0] == "transferlate"
+		const lateBy = 2 * time.Millisecond
+		lateV := 0
+		if late {
+			if s.closed || s.q < 2 || uint64(len(s.in)) != s.q-1 {
+				return "bad-op"
+			}
+			lateV, _ = strconv.Atoi(t[1])
+		} else if uint64(len(s.in)) < s.q && !s.closed {
 			return "blocked"
 		}
 		var stop bool
 		var fwd []int
 		fin := make(chan struct{})
-		go func() { stop = s.stp.Pass(); close(fin) }()
+		if late {
+			// `transfer()` is started while the last element of the portion is still missing;
+			// once the discipline has taken what was there (so it is inside the portion, past
+			// its clock reading) the element is withheld for `lateBy` more
+			var dur time.Duration
+			go func() { dur, stop = s.stp.Transfer(); close(fin) }()
+			for deadline := time.Now().Add(5 * time.Second); len(s.in) > 0 && time.Now().Before(deadline); {
+				time.Sleep(50 * time.Microsecond)
+			}
+			time.Sleep(lateBy)
+			s.in <- lateV
+			s.fed = append(s.fed, lateV)
+			defer func() {
+				if rep != "hang" && dur < lateBy {
+					s.fail("C12 transfer() reports %v for a portion whose last element arrived more than %v after the portion had started: the pause that follows, Interval - %v, makes the portion longer than Interval although nothing else held it up", dur, lateBy, dur)
+				}
+			}()
+		} else {
+			go func() { stop = s.stp.Pass(); close(fin) }()
+		}
 		out := s.stp.Discipline().Output()
 	loop:
 		for {
@@ -231,6 +258,19 @@ func main() {
 		do := func(op string) string { rep := s.exec(op); w.Case(cls, true, op, rep); return rep }
 		rounds := 1 + r.Intn(6)
 		for k := 0; k < rounds && !s.done; k++ {
+			if !huge && !s.closed && q >= 2 && r.Intn(4) == 0 {
+				// a portion whose last element arrives late
+				var xs []string
+				for j := len(s.in); j < int(q)-1; j++ {
+					next++
+					xs = append(xs, strconv.Itoa(next))
+				}
+				if len(xs) > 0 {
+					do("feed " + strings.Join(xs, ","))
+				}
+				next++
+				do(fmt.Sprintf("transferlate %d", next))
+			}
 			// element counts: 0, < Q, = Q, multiples, random
 			var cnt int
 			if huge {
